@@ -389,6 +389,11 @@ impl Session {
                 self.check_state("datastore");
                 write_rpc(stream, &id, r)
             }
+            "deldatastore" => {
+                let r = self.node.deldatastore(&params);
+                self.check_state("deldatastore");
+                write_rpc(stream, &id, r)
+            }
             "listdatastore" => write_rpc(stream, &id, self.node.listdatastore(&params)),
             "listsendpays" => write_rpc(stream, &id, self.node.listsendpays(&params)),
             "waitsendpay" => match self.node.find_part(&params) {
